@@ -60,7 +60,8 @@ func (gi *gitlabImporter) ImportAll(ctx context.Context, repo *cache.RepoCache, 
 	go func() {
 		defer close(out)
 
-		for issue := range Issues(ctx, gi.client, gi.conf[confKeyProjectID], since) {
+		issues, issuesErr := Issues(ctx, gi.client, gi.conf[confKeyProjectID], since)
+		for issue := range issues {
 
 			b, err := gi.ensureIssue(repo, issue)
 			if err != nil {
@@ -94,6 +95,13 @@ func (gi *gitlabImporter) ImportAll(ctx context.Context, repo *cache.RepoCache, 
 				out <- core.NewImportError(err, "")
 				return
 			}
+		}
+
+		// an incomplete listing must not pass for a complete import
+		select {
+		case err := <-issuesErr:
+			out <- core.NewImportError(fmt.Errorf("issue listing: %v", err), "")
+		default:
 		}
 	}()
 
